@@ -17,12 +17,15 @@ impl Check for C13 {
         "C13"
     }
     fn entropy_len(&self) -> usize {
-        600
+        800
     }
     fn cases(&self, tier: Tier) -> u64 {
         tier.pick(400_000, 10_000_000)
     }
     fn run_case(&self, src: &mut Src, obs: &mut Obs) -> Result<(), Fail> {
+        if src.chance(1, 12) {
+            return if src.chance(1, 5) { many_lanes::<f32>(src, obs) } else { many_lanes::<f64>(src, obs) };
+        }
         let two_d = src.chance(1, 3);
         match (two_d, src.chance(1, 5)) {
             (false, false) => run::<f64>(src, obs, false),
@@ -55,6 +58,107 @@ impl Check for C13 {
 }
 
 type Out<T> = Result<Arr<T>, String>;
+
+/// array of the logical shape `shape` (rank >= 3) whose rows along axis 0 are stored contiguously in Fortran order
+/// (`rows_f`), or in plain C order
+fn rows_layout<T: Clone>(logical: &ArrayD<T>, rows_f: bool, junk: T) -> ArrayD<T> {
+    if !rows_f {
+        return logical.clone();
+    }
+    let sh = logical.shape().to_vec();
+    let r = sh.len();
+    // storage shape: axis 0 first, the trailing axes reversed; the view permutes them back
+    let mut st = vec![sh[0]];
+    st.extend(sh[1..].iter().rev());
+    let perm: Vec<usize> = std::iter::once(0).chain((1..r).rev()).collect();
+    let mut a = ArrayD::from_elem(IxDyn(&st), junk).permuted_axes(IxDyn(&perm));
+    a.assign(logical);
+    a
+}
+
+/// many lanes (32..96 per row), data rows and buffer rows in equal or different contiguous non-C layouts
+fn many_lanes<T: Flt>(src: &mut Src, obs: &mut Obs) -> Result<(), Fail> {
+    obs.class("dim:1");
+    obs.class("lanes:many");
+    obs.class(format!("T:{}", T::NAME));
+    let junk = T::of(-123456.0);
+    let poison = T::of(-7.5e22);
+    let spline = src.bool();
+    let n = src.usize_in(if spline { 3 } else { 2 }, 6);
+    let trailing: Vec<usize> = if src.bool() { vec![src.usize_in(4, 8), src.usize_in(8, 12)] } else { vec![src.usize_in(2, 4), src.usize_in(4, 6), src.usize_in(4, 5)] };
+    let lanes = product(&trailing);
+    let class = src.pick(&[AxisClass::Index, AxisClass::Uniform, AxisClass::Random, AxisClass::Dyadic]);
+    let x = axis::<T>(src, n, class, Some(6));
+    let strat: Strat1<T> = if spline {
+        Strat1::Spline { extrapolate: false, bc: src.pick(&[Bc::NotAKnot, Bc::Natural, Bc::Clamped]) }
+    } else {
+        Strat1::Linear { extrapolate: false }
+    };
+    obs.class(if spline { "strat:Spline" } else { "strat:Linear" });
+    let dd = if src.chance(1, 4) { DDim::Dyn } else if trailing.len() == 2 { DDim::S3 } else { DDim::S4 };
+    let mut shape = vec![n];
+    shape.extend_from_slice(&trailing);
+    let (data_f, buf_f) = match src.below(3) {
+        0 => (true, true),
+        1 => (true, false),
+        _ => (false, true),
+    };
+    obs.class(format!("lanes:many/data-rows-{}/buffer-rows-{}", if data_f { "F" } else { "C" }, if buf_f { "F" } else { "C" }));
+    let x_c = arr_1::<T>(&x);
+    let explicit_x = class != AxisClass::Index;
+    let ep = src.pick(&[1usize, 2, 2, 3, 4, 4]);
+    let qlen = if ep <= 2 { 1 } else { src.usize_in(1, 3) };
+    let qshape: Vec<usize> = if ep <= 2 { vec![] } else { vec![qlen] };
+    let qd = if ep <= 2 { QDim::S0 } else if src.bool() { QDim::S1 } else { QDim::Dyn };
+    let qv: Vec<T> = (0..qlen).map(|_| T::of(query_in_range::<T>(src, &x).0)).collect();
+    let q_c = ArrayD::from_shape_vec(IxDyn(&qshape), qv).unwrap();
+    let (data_view, q_owned) = (src.bool(), src.bool());
+    // the values last: they may use up the entropy
+    let vc = val_class(src);
+    let data = values::<T>(src, n * lanes, vc, 0);
+    let data_c = arr_d::<T>(&shape, &data);
+    let data_l = rows_layout(&data_c, data_f, junk);
+    let mut want = qshape.clone();
+    want.extend_from_slice(&trailing);
+    let bshape = if ep == 2 { trailing.clone() } else { want.clone() };
+    let mut buf_c = ArrayD::from_elem(IxDyn(&bshape), poison);
+    let mut buf_l = if !buf_f {
+        buf_c.clone()
+    } else if ep == 2 {
+        // a single row in Fortran order
+        let st: Vec<usize> = bshape.iter().rev().cloned().collect();
+        ArrayD::from_elem(IxDyn(&st), poison).reversed_axes()
+    } else {
+        rows_layout(&buf_c, true, poison)
+    };
+    let base = with_interp1::<T, Out<T>>(explicit_x.then_some(&x_c), false, &data_c, data_view, dd, &strat, &mut |i| call1(i, ep, &q_c, q_owned, qd, &mut buf_c));
+    let var = catch(|| with_interp1::<T, Out<T>>(explicit_x.then_some(&x_c), false, &data_l, data_view, dd, &strat, &mut |i| call1(i, ep, &q_c, q_owned, qd, &mut buf_l)));
+    let ctx = format!("T={} {:?} data {}{:?} strides {:?} ({}), query {}{:?}, buffer {:?} strides {:?}, entry {}", T::NAME, strat, dd.name(), shape, data_l.strides(), if data_view { "view" } else { "owned" }, qd.name(), qshape, bshape,
+        buf_l.strides(), ["scalar", "interp", "interp_into", "array", "array_into"][ep]);
+    let base = match base {
+        Some(Ok(Ok(b))) => b,
+        other => fail!("oracle-bug", "standard-layout run failed: {:?}; {ctx}", other.map(|r| r.map(|o| o.map(|a| a.shape)))),
+    };
+    let var = match var {
+        Ok(Some(Ok(v))) => v,
+        Ok(Some(Err(e))) => fail!("layout-build-rejected/data:rows-F", "build() rejected data whose rows are stored in Fortran order: {e}; {ctx}"),
+        Ok(None) => fail!("oracle-bug", "not expressible"),
+        Err(p) => fail!("layout-build-panic/data:rows-F", "build() panicked: {p}; {ctx}"),
+    };
+    obs.asserts += 1;
+    let base = Ok(base);
+    if !same(&base, &var) {
+        let (bv, vv) = (base.as_ref().unwrap(), var.as_ref());
+        let first = vv.ok().and_then(|v| bv.v.iter().zip(v.v.iter()).position(|(a, b)| a.key() != b.key()));
+        fail!(format!("layout-dependence/many-lanes/{}", if var.is_err() { "failure" } else { "values" }), "with {lanes} lanes per row the call {} although only memory layouts differ from the standard-layout run; {ctx}; first differing element {:?}",
+            if var.is_err() { format!("fails with {:?}", var.as_ref().err()) } else { "returns different values".into() }, first);
+    }
+    obs.nontrivial = true;
+    obs.key(&ctx);
+    obs.key(&data.iter().map(|v| v.to_bits()).collect::<Vec<_>>());
+    obs.describe(|| json!({"case": ctx}));
+    Ok(())
+}
 
 /// run one entry point; buffers are supplied by the caller
 fn call1<T: Flt>(i: &dyn I1<T>, ep: usize, q: &ArrayD<T>, q_owned: bool, qd: QDim, buf: &mut ArrayD<T>) -> Out<T> {
@@ -174,6 +278,38 @@ fn run<T: Flt>(src: &mut Src, obs: &mut Obs, two_d: bool) -> Result<(), Fail> {
             let culprit = if var.is_err() && ep >= 2 && ep != 3 && lb != Layout::C { format!("buffer:{}", lb.name()) } else if ld != Layout::C { format!("data:{}", ld.name()) } else if lq != Layout::C { format!("query:{}", lq.name()) } else { format!("axis:{}", lx.name()) };
             fail!(format!("layout-dependence/{}/{culprit}", if var.is_err() { "failure" } else { "values" }), "the call {what} although only memory layouts differ from the standard-layout run; {ctx}; standard: {:?}, with layouts: {:?}",
                 base.as_ref().map(|a| a.v.iter().take(4).map(|v| v.f()).collect::<Vec<_>>()), var.as_ref().map(|a| a.v.iter().take(4).map(|v| v.f()).collect::<Vec<_>>()));
+        }
+        // (a) aliasing: the axis is every second element of an allocation, the rank-1 query is the first n elements
+        // of the very same allocation (same start address and length, other stride)
+        if explicit_x && ep >= 3 && c.n >= 2 && src.chance(1, 6) {
+            obs.class("query:aliases-axis-allocation");
+            let n = c.n;
+            let mut t = vec![T::zero(); 2 * n - 1];
+            for i in 0..n {
+                t[2 * i] = T::of(c.x[i]);
+                if i + 1 < n {
+                    t[2 * i + 1] = T::of(c.x[i] + (c.x[i + 1] - c.x[i]) * 0.5);
+                }
+            }
+            // strictly increasing storage? (midpoints may collide with knots on ulp-clustered axes)
+            if t.windows(2).all(|w| w[0] < w[1]) {
+                let store = Array1::from_vec(t);
+                let xview = store.slice(ndarray::s![..;2]);
+                let qalias = store.slice(ndarray::s![..n]);
+                let qindep = qalias.to_owned();
+                let run = |q: ndarray::ArrayViewD<'_, T>| -> Option<Out<T>> {
+                    let r = crate::adapt::with_interp1_xview::<T, Out<T>>(xview.view(), &data_c, c.dd, &strat, &mut |i| {
+                        catch(|| i.t_array(q.clone(), QDim::S1)).map(|o| o.unwrap().map_err(|e| format!("Err({e})"))).unwrap_or_else(|p| Err(format!("panic: {p}")))
+                    })?;
+                    r.ok()
+                };
+                if let (Some(a), Some(b)) = (run(qalias.view().into_dyn()), run(qindep.view().into_dyn())) {
+                    obs.asserts += 1;
+                    if !same(&a, &b) {
+                        fail!("layout-dependence/query-aliases-axis", "a rank-1 query that is a view into the allocation behind the x axis gives other results than an independent copy of it; {ctx}");
+                    }
+                }
+            }
         }
         // owned vs view (different concrete types)
         let exact_axis = matches!(c.axis_class, AxisClass::Index | AxisClass::Unit | AxisClass::Dyadic | AxisClass::Symmetric);
